@@ -656,6 +656,7 @@ func (e *Engine) report(o *checkOpts, units []*Unit, start time.Time, loadSecs, 
 		coverOK := 0
 		retCover := map[string]*retGroup{}
 		callCover := map[string]*Obligation{}
+		dbAfter := map[string]*retGroup{}
 		siteCover := map[string]*retGroup{} // per return site: which ones are proved unreachable on every probed path
 		for _, u := range units {
 			if !contains(contractPropsOrUnit(u), prop) {
@@ -708,6 +709,23 @@ func (e *Engine) report(o *checkOpts, units []*Unit, start time.Time, loadSecs, 
 				}
 				continue
 			}
+			if ob.Vacuity && ob.Kind == "cover" && strings.Contains(ob.Name, "#cover:after-db-") {
+				g := dbAfter[ob.Name]
+				if g == nil {
+					g = &retGroup{ob: ob}
+					dbAfter[ob.Name] = g
+				}
+				switch ob.Result.Status {
+				case "sat":
+					g.sat++
+					coverOK++
+				case "unsat":
+					g.unsat++
+				default:
+					g.unknown++
+				}
+				continue
+			}
 			if ob.Vacuity && ob.Kind == "cover" && (strings.Contains(ob.Name, "#cover:before-") || strings.Contains(ob.Name, "#cover:after-")) {
 				callCover[ob.Name] = ob
 				if ob.Result.Status == "sat" {
@@ -748,7 +766,21 @@ func (e *Engine) report(o *checkOpts, units []*Unit, start time.Time, loadSecs, 
 				}
 			}
 		}
+		for name, before := range callCover {
+			// database terminals fork: judged per call site, all continuations together
+			if !strings.Contains(name, "#cover:before-db-") || before.Result.Status == "unsat" {
+				continue
+			}
+			afterName := strings.Replace(name, "#cover:before-db-", "#cover:after-db-", 1)
+			g := dbAfter[afterName]
+			if g != nil && g.sat == 0 && g.unknown == 0 && g.unsat > 0 {
+				fails = append(fails, failure{name: afterName, reason: "vacuous", detail: "every continuation of this database call is infeasible although the path was feasible before it: the model of the call contradicts what is known here, and everything after it would hold vacuously", ob: g.ob})
+			}
+		}
 		for name, after := range callCover {
+			if strings.Contains(name, "-db-") {
+				continue
+			}
 			if !strings.Contains(name, "#cover:after-") || after.Result.Status != "unsat" {
 				continue
 			}
